@@ -39,8 +39,8 @@ def short(fn):
 
 LEVEL_TEXT = ("Every public operation's wire emission is read symbolically (wrappers inlined with argument substitution) and compared cell by cell with "
               "a hand-written AMQP table: channel object, wait mode, class/method, every field source, reply type, return value; the channel-id assertion "
-              "must dominate ack/nack/reject from every entry. Parametric in argument values, hence all values and flag combinations; byte encoding is "
-              "amq_protocol's.")
+              "must dominate ack/nack/reject from every entry; no path of an operation, or of any function between it and the I/O-loop handle, reports success without "
+              "the emitting call (three at-most-once latches tabled). Parametric in argument values, hence all values and flag combinations; byte encoding is amq_protocol's.")
 LEVEL_NOTE = "Trusts rustc's resolution, amq_protocol's encoding of named struct fields, the erased value-preserving conversions listed in evidence."
 TECHNIQUE = "static analysis: symbolic field-wiring extraction over resolved HIR with bounded inlining, compared with an oracle table; dominance of the assertion"
 
